@@ -13,6 +13,7 @@ static Obj *current_fn;
 
 static void gen_expr(Node *node);
 static void gen_stmt(Node *node);
+static void discard(Type *ty);
 
 #ifdef CHIBICC_VERIF
 // Verification hooks (off unless the environment variable
@@ -167,6 +168,7 @@ static void gen_addr(Node *node) {
     return;
   case ND_COMMA:
     gen_expr(node->lhs);
+    discard(node->lhs->ty);
     gen_addr(node->rhs);
     return;
   case ND_MEMBER:
@@ -192,6 +194,15 @@ static void gen_addr(Node *node) {
   }
 
   error_tok(node->tok, "not an lvalue");
+}
+
+// The value of an expression that is evaluated only for its side
+// effects is dropped. Integer and SSE values live in registers and need
+// nothing, but a long double sits on the x87 register stack and has to
+// be popped, or the stack overflows after eight of them.
+static void discard(Type *ty) {
+  if (ty && ty->kind == TY_LDOUBLE)
+    println("  fstp %%st(0)");
 }
 
 // Load a value from where %rax is pointing to.
@@ -256,7 +267,9 @@ static void store(Type *ty) {
     println("  movsd %%xmm0, (%%rdi)");
     return;
   case TY_LDOUBLE:
+    // The assignment expression still has a value afterwards.
     println("  fstpt (%%rdi)");
+    println("  fldt (%%rdi)");
     return;
   }
 
@@ -425,8 +438,10 @@ static char *cast_table[][11] = {
 };
 
 static void cast(Type *from, Type *to) {
-  if (to->kind == TY_VOID)
+  if (to->kind == TY_VOID) {
+    discard(from);
     return;
+  }
 
   if (to->kind == TY_BOOL) {
     cmp_zero(from);
@@ -868,6 +883,7 @@ static void gen_expr(Node *node) {
     return;
   case ND_COMMA:
     gen_expr(node->lhs);
+    discard(node->lhs->ty);
     gen_expr(node->rhs);
     return;
   case ND_CAST:
@@ -1316,8 +1332,10 @@ static void gen_stmt(Node *node) {
     }
     gen_stmt(node->then);
     println("%s:", node->cont_label);
-    if (node->inc)
+    if (node->inc) {
       gen_expr(node->inc);
+      discard(node->inc->ty);
+    }
     println("  jmp .L.begin.%d", c);
     println("%s:", node->brk_label);
     return;
@@ -1417,6 +1435,7 @@ static void gen_stmt(Node *node) {
     return;
   case ND_EXPR_STMT:
     gen_expr(node->lhs);
+    discard(node->lhs->ty);
     return;
   case ND_ASM:
     println("  %s", node->asm_str);
